@@ -7,7 +7,7 @@ LEAN_TARGETS = ['LLTD.Props.C11']
 VARIANT = 'san'
 RULE = ('derive_session_event on harness-built frames in an exact-size heap image: Discover with station counts 0..240, the own '
         'address at every position / absent / near-collisions differing in one byte, declared count above what the frame holds '
-        '(incl. 0xFFFF), session tables with same/different sequence number and generation, all 256 opcodes, Reset to broadcast / '
+        '(incl. 0xFFFF), session tables with same/different sequence number and generation, Discovers arriving directly or through a bridge (Ethernet source = another station or another known mapper), all 256 opcodes, Reset to broadcast / '
         'unicast, truncated images; non-trivial = event != -1; distinct = distinct (op, result) line pairs')
 ASSUMPTIONS = ['the classifier is told the number of bytes it may read (frame_len), as the repaired signature requires']
 project = ident
@@ -21,9 +21,10 @@ def hdr(tos, op, dst, src, rdst, rsrc, seq):
     return dst + src + '88d9' + '01' + '%02x' % tos + '00' + '%02x' % op + rdst + rsrc + '%04x' % seq
 
 
-def discover(rng, mapper, gen, xid, stations, declared=None, tos=0):
+def discover(rng, mapper, gen, xid, stations, declared=None, tos=0, eth=None):
+    """eth: the Ethernet source when the Discover arrives through a bridge (another station, possibly another known mapper)"""
     d = len(stations) if declared is None else declared
-    return hdr(tos, 0, 'ffffffffffff', mapper, 'ffffffffffff', mapper, xid) + '%04x%04x' % (gen, d) + ''.join(stations)
+    return hdr(tos, 0, 'ffffffffffff', eth or mapper, 'ffffffffffff', mapper, xid) + '%04x%04x' % (gen, d) + ''.join(stations)
 
 
 def cases(rng, tier, X):
@@ -44,7 +45,7 @@ def cases(rng, tier, X):
             mapper = rng.choice(MAPPERS)
             gen = rng.choice([7, 8, 9])
             xid = rng.choice([100, 200, 300, 1])
-            f = discover(rng, mapper, gen, xid, st)
+            f = discover(rng, mapper, gen, xid, st, eth=rng.choice([None, None, None, rng.choice(MAPPERS)]))
             avail = rng.choice([1500, 576, len(f) // 2, len(f) // 2])
             if avail < len(f) // 2:
                 avail = len(f) // 2
@@ -87,7 +88,7 @@ def cases(rng, tier, X):
             nst = rng.choice([0, 1, 2, 3, 10, 40])
             st = [rng.choice(NEAR + [OWN]) if rng.random() < 0.15 else rng.choice(NEAR) for _ in range(nst)]
             f = discover(rng, rng.choice(MAPPERS), rng.choice([7, 8]), rng.choice([100, 200, 300]), st,
-                         declared=rng.choice([None, None, None, nst + 1, 0xffff, 0]))
+                         declared=rng.choice([None, None, None, nst + 1, 0xffff, 0]), eth=rng.choice([None, None, rng.choice(MAPPERS), '0200000000bb']))
             ops.append('ev 0 %s avail=%d tbl=%s' % (f, len(f) // 2 + rng.choice([0, 0, 3, 6, 700]), rng.choice(['0', '0', '0', '-'])))
         out.append(('rand%d' % k, ops))
     return out
